@@ -30,7 +30,8 @@ HEADER = "pipeline_id,arrival_seconds,priority,operator_id,parents,baseline_cpu_
 
 def plan(tier):
     return [{"kind": "function", "func": "grid"},
-            {"kind": "hypothesis", "examples": 3000 if tier == "quick" else 60000}]
+            {"kind": "hypothesis", "examples": 3000 if tier == "quick" else 60000},
+            {"kind": "function", "func": "fuzz", "shards": 2 if tier == "quick" else 8}]
 
 
 # ----------------------------------------------------------------------------- oracle
@@ -253,8 +254,17 @@ def run_roundtrip(params, out, P):
     return events
 
 
+def fuzz(tier, seed, shard, nshards):
+    """coverage-guided campaign (atheris / libFuzzer) over the CSV grammar with the C13 oracle inside the target"""
+    from verif.fuzz.driver import campaign
+    return campaign("C13", tier, seed, shard, nshards)
+
+
 def run_case(spec):
     out = Outcome()
+    if "fuzz_bytes_hex" in spec:
+        from verif.fuzz import driver
+        return driver.replay(spec, out)
 
     cnt = {"known": 0, "other": 0}
 
